@@ -11,6 +11,13 @@ structure DState where
   guarded : Bool := true
   -- param port composition (glue for the connection-level correspondence)
   pconn : Nat := 0
+  -- TOC cache (crc -> dictionary as stored when a download finished); enabled by `cacheon`
+  caching : Bool := false
+  cache : List (Nat × Toc) := []
+  -- a bare Toc object driven by `t ...` ops (lookups go to it while `useObj`)
+  useObj : Bool := false
+  tobj : Toc := []
+  snaps : List Toc := []
 
 def showElem (e : Elem) : String :=
   s!"{toHex e.group}/{toHex e.name}/{e.ident}/{e.ctype}/{if e.pytype.isEmpty then "_" else e.pytype}/{e.access}/{if e.extended then 1 else 0}/{if e.persistent then 1 else 0}"
@@ -30,7 +37,16 @@ def showSends (l : List Bytes) : String :=
 
 def dec (isParam : Bool) : Nat → Bytes → Except PyErr Elem := if isParam then decodeParam else decodeLog
 
+def cacheFn (s : DState) : Nat → Option Toc := fun c =>
+  if s.caching then (s.cache.find? (fun e => e.1 == c)).map (·.2) else none
+
+/-- `TocCache.insert` when a download (not a cache hit) finishes -/
+def cacheInsert (s : DState) (before after : Fetcher) (finished : Bool) : List (Nat × Toc) :=
+  let hit := before.st == .info && (match cacheFn s after.crc with | some (_ :: _) => true | _ => false)
+  if s.caching && finished && !hit then (after.crc, after.toc) :: s.cache.filter (fun e => e.1 != after.crc) else s.cache
+
 def curToc (s : DState) : Option Toc :=
+  if s.useObj then some s.tobj else
   match s.x, s.f with
   | some x, _ => some x.toc
   | none, some f => some f.toc
@@ -50,17 +66,36 @@ def step (s : DState) (ws : List String) : DState × String :=
     match kind, v2.toNat? with
     | "log", some v | "param", some v =>
       match Fetcher.start (v ≠ 0) with
-      | .ok (f, r) => ({ f := some f, isParam := kind == "param", x := none }, "ok " ++ toHex r)
+      | .ok (f, r) => ({ s with f := some f, isParam := kind == "param", x := none, useObj := false }, "ok " ++ toHex r)
       | .error e => (s, s!"err {e}")
     | _, _ => (s, "bad-op")
   | ["fpkt", chan, d] =>
     match s.f, chan.toNat?, ofHex? d with
     | some f, some c, some d =>
-      match f.onPacket (dec s.isParam) c d with
-      | .ok r => ({ s with f := some r.f },
+      match f.onPacketC (dec s.isParam) (cacheFn s) c d with
+      | .ok r => ({ s with f := some r.f, cache := cacheInsert s f r.f r.finished },
           s!"ok sends={showSends r.sends} finished={if r.finished then 1 else 0} st={showSt r.f.st} req={r.f.req} nbr={r.f.nbr} crc={r.f.crc}")
       | .error e => (s, s!"err {e}")
     | _, _, _ => (s, "bad-op")
+  | ["cacheon"] => ({ s with caching := true, cache := [] }, "ok")
+  | ["cacheoff"] => ({ s with caching := false, cache := [] }, "ok")
+  | ["t", "new"] => ({ s with useObj := true, tobj := [], snaps := [] }, "ok")
+  | ["t", "add", kind, i, d] =>
+    match kind, i.toNat?, ofHex? d with
+    | "log", some i, some d | "param", some i, some d =>
+      match dec (kind == "param") i d with
+      | .ok e => ({ s with tobj := TocOp.apply s.tobj (.add e) }, "ok")
+      | .error e => (s, s!"err {e}")
+    | _, _, _ => (s, "bad-op")
+  | ["t", "clear"] => ({ s with tobj := TocOp.apply s.tobj .clear }, "ok")
+  | ["t", "snap"] => ({ s with snaps := s.snaps ++ [s.tobj] }, s!"ok {s.snaps.length}")
+  | ["t", "install", k] =>
+    match k.toNat? with
+    | some k =>
+      match s.snaps[k]? with
+      | some t => ({ s with tobj := TocOp.apply s.tobj (.install t) }, "ok")
+      | none => (s, "bad-op")
+    | none => (s, "bad-op")
   | ["fdisc"] =>
     match s.f with
     | some f => ({ s with f := some f.disconnect }, s!"ok st={showSt f.disconnect.st} registered={if f.disconnect.registered then 1 else 0}")
@@ -127,16 +162,17 @@ def step (s : DState) (ws : List String) : DState × String :=
     match v2.toNat? with
     | some v =>
       match Fetcher.start (v ≠ 0) with
-      | .ok (f, r) => ({ s with f := some f, isParam := true, x := none, pconn := 0 }, "ok " ++ toHex r)
+      | .ok (f, r) => ({ s with f := some f, isParam := true, x := none, pconn := 0, useObj := false }, "ok " ++ toHex r)
       | .error e => (s, s!"err {e}")
     | none => (s, "bad-op")
   | ["ppkt", chan, d] =>
     match s.f, chan.toNat?, ofHex? d with
     | some f, some c, some d =>
       if f.st ≠ .done ∧ f.st ≠ .aborted then
-        match f.onPacket decodeParam c d with
+        match f.onPacketC decodeParam (cacheFn s) c d with
         | .error e => (s, s!"err {e}")
         | .ok r =>
+          let s := { s with cache := cacheInsert s f r.f r.finished }
           if r.finished then
             match refreshDone r.f.toc with
             | .ok none => ({ s with f := some r.f, pconn := s.pconn + 1 }, s!"ok sends={showSends r.sends} connected={s.pconn + 1}")
